@@ -228,6 +228,49 @@ func c15ConnEvent(status int, utcMicros uint64) []byte {
 	return p
 }
 
+// The legal FORMS of the reader's event notifications, a per-connection choice (the supervisor model
+// does not distinguish them: that is the claim):
+//
+//	0  UTCTimestamp, ConnectionAttemptEvent only          1  Uptime instead of UTCTimestamp (a reader without a UTC clock)
+//	2  UTCTimestamp + AntennaEvent before the ConnectionAttemptEvent, and a LATER notification (AntennaEvent, UTC) once set up
+//	3  Uptime + ReportBufferLevelWarningEvent before it, and a later notification (AntennaEvent, Uptime) once set up
+const c15NForms = 4
+
+func c15Timestamp(form int, micros uint64) []byte {
+	p := []byte{0x00, 0x80, 0x00, 0x0C, 0, 0, 0, 0, 0, 0, 0, 0}
+	if form%2 == 1 {
+		p[1] = 0x81 // Uptime
+		micros = 4242424242
+	}
+	binary.BigEndian.PutUint64(p[4:], micros)
+	return p
+}
+
+func c15RENData(body []byte) []byte {
+	p := []byte{0x00, 0xF6, 0, 0}
+	p = append(p, body...)
+	binary.BigEndian.PutUint16(p[2:], uint16(len(p)))
+	return p
+}
+
+// c15ConnEventForm: the connection event in the given form
+func c15ConnEventForm(form, status int, utcMicros uint64) []byte {
+	body := c15Timestamp(form, utcMicros)
+	switch form {
+	case 2:
+		body = append(body, 0x00, 0xFF, 0x00, 0x07, 1, 0, 1) // AntennaEvent: antenna 1 connected
+	case 3:
+		body = append(body, 0x00, 0xFA, 0x00, 0x05, 80) // ReportBufferLevelWarningEvent: 80 %
+	}
+	body = append(body, 0x01, 0x00, 0x00, 0x06, byte(status>>8), byte(status))
+	return c15RENData(body)
+}
+
+// c15LaterEvent: a reader event on a connection that is set up (an antenna was disconnected)
+func c15LaterEvent(form int, utcMicros uint64) []byte {
+	return c15RENData(append(c15Timestamp(form, utcMicros), 0x00, 0xFF, 0x00, 0x07, 0, 0, 2))
+}
+
 // ------------------------------------------------------------------ one script run
 
 type c15Query struct {
@@ -255,6 +298,10 @@ type c15Run struct {
 	grcMode atomic.Int32 // how the reader answers GetReaderConfig (see serve)
 	errLogs atomic.Int64
 	stale   bool // a connection event went out on a connection the device closed at once
+	// forms of the notifications: connection k of the run uses form (formSeed + k) mod c15NForms;
+	// formSeed is a function of the script TEXT, so a script replayed alone sends the same forms
+	formSeed uint32
+	connIdx  atomic.Int64
 	badVar  int
 	dev     *LLRPDevice
 	name    string
@@ -435,7 +482,7 @@ func (r *c15Run) serve(cn *c15Conn, wantSRC int) {
 		case 0:
 			cn.write(c15Frame(c15MsgKeepAlive, 1, nil))
 		case 1:
-			cn.write(c15Frame(c15MsgReaderEventNotification, 1, c15ConnEvent(1, 1600000000000000)))
+			cn.write(c15Frame(c15MsgReaderEventNotification, 1, c15ConnEventForm(int(r.formSeed+uint32(r.badVar))%c15NForms, 1, 1600000000000000)))
 		case 2:
 			cn.write(c15Frame(c15MsgROAccessReport, 1, nil))
 		}
@@ -447,7 +494,8 @@ func (r *c15Run) serve(cn *c15Conn, wantSRC int) {
 	}
 	// good handshake
 	r.logf("hs")
-	if _, err := cn.write(c15Frame(c15MsgReaderEventNotification, 1, c15ConnEvent(0, 1600000000000000))); err != nil {
+	form := int((int64(r.formSeed) + r.connIdx.Add(1) - 1) % c15NForms)
+	if _, err := cn.write(c15Frame(c15MsgReaderEventNotification, 1, c15ConnEventForm(form, 0, 1600000000000000))); err != nil {
 		r.logf("!write")
 		signal("dropped")
 		return
@@ -496,6 +544,9 @@ func (r *c15Run) serve(cn *c15Conn, wantSRC int) {
 					c.Close()
 					signal("dropped")
 					return
+				}
+				if form >= 2 && cn.mode == 'E' {
+					cn.write(c15Frame(c15MsgReaderEventNotification, 2, c15LaterEvent(form, 1600000001000000)))
 				}
 				time.Sleep(15 * time.Millisecond) // let onConnect take the reply before the script goes on
 				signal("src")
@@ -639,6 +690,26 @@ func (r *c15Run) serveBrokenNegotiation(cn *c15Conn, signal func(string)) {
 	}
 }
 
+// c15Timed runs f and reports whether it returned within d (f goes on in its goroutine otherwise)
+func c15Timed(d time.Duration, f func()) bool {
+	done := make(chan struct{})
+	go func() { f(); close(done) }()
+	select {
+	case <-done:
+		return true
+	case <-time.After(d):
+		return false
+	}
+}
+
+func c15FormSeed(text string) uint32 {
+	h := uint32(2166136261)
+	for i := 0; i < len(text); i++ {
+		h = (h ^ uint32(text[i])) * 16777619
+	}
+	return h
+}
+
 func c15Class(err error) string {
 	var se *llrp.StatusError
 	var fe *retry.FError
@@ -672,7 +743,7 @@ const (
 
 func c15RunScript(id string, up0 bool, toks []string) string {
 	r := &c15Run{id: id, queries: make(chan c15Query, 64), conns: make(chan net.Conn, 64), name: "dev-" + id,
-		captured: make(chan struct{}, 1)}
+		captured: make(chan struct{}, 1), formSeed: c15FormSeed(fmt.Sprint(up0, toks))}
 	const nAddr = 3
 	var listeners [nAddr]net.Listener
 	var addrs [nAddr]net.Addr
@@ -970,10 +1041,17 @@ func c15RunScript(id string, up0 bool, toks []string) string {
 			if tok[0] == 'u' {
 				cancel()
 			}
-			r.dev.deviceMu.RLock()
-			same := sameAddr(r.dev.address, addrs[n])
-			r.dev.deviceMu.RUnlock()
-			_ = r.dev.UpdateAddr(ctx, addrs[n])
+			same := false
+			// (a device whose own lock is stuck must not take the harness down with it)
+			if !c15Timed(8*time.Second, func() {
+				r.dev.deviceMu.RLock()
+				same = sameAddr(r.dev.address, addrs[n])
+				r.dev.deviceMu.RUnlock()
+				_ = r.dev.UpdateAddr(ctx, addrs[n])
+			}) {
+				r.logf("!hang:updateaddr")
+				abort = true
+			}
 			cancel()
 			if !same {
 				waitConnEnd(before)
@@ -1047,9 +1125,14 @@ watch:
 			break watch
 		}
 	}
-	r.dev.deviceMu.RLock()
-	up := r.dev.isUp
-	r.dev.deviceMu.RUnlock()
+	up := false
+	if !c15Timed(3*time.Second, func() {
+		r.dev.deviceMu.RLock()
+		up = r.dev.isUp
+		r.dev.deviceMu.RUnlock()
+	}) {
+		r.logf("!hang:devicelock")
+	}
 	r.mu.Lock()
 	defer r.mu.Unlock()
 	return fmt.Sprintf("%s | up=%d", strings.Join(r.log, " "), map[bool]int{false: 0, true: 1}[up])
@@ -1060,7 +1143,7 @@ watch:
 // stays; 'r' the reader is unreachable (a standing connection breaks, the port refuses) for at
 // least two attempts. Only what the device announces is observed: "rU+ rD+ .. | up=<isUp>".
 func c15RunStart(id string, up0 bool, phases string) string {
-	r := &c15Run{id: id, name: "start-" + id}
+	r := &c15Run{id: id, name: "start-" + id, formSeed: c15FormSeed(fmt.Sprint(up0, phases))}
 	l, err := net.Listen("tcp4", "127.0.0.1:0")
 	if err != nil {
 		return "!listen " + err.Error()
@@ -1151,9 +1234,13 @@ func c15RunStart(id string, up0 bool, phases string) string {
 		return "!nodevice"
 	}
 	isUp := func() bool {
-		r.dev.deviceMu.RLock()
-		defer r.dev.deviceMu.RUnlock()
-		return r.dev.isUp
+		v := false
+		c15Timed(3*time.Second, func() {
+			r.dev.deviceMu.RLock()
+			v = r.dev.isUp
+			r.dev.deviceMu.RUnlock()
+		})
+		return v
 	}
 	var cur *c15Conn
 	for _, ph := range phases {
